@@ -125,6 +125,8 @@ pub struct Viol {
     pub what: String,
     /// full concrete case (JSON)
     pub detail: Json,
+    /// key of the job (unit of enumeration) that found it: `--only-key <job>` re-executes exactly it
+    pub job: String,
 }
 
 #[derive(Default, Clone, Debug)]
@@ -161,6 +163,7 @@ impl JobOut {
                 key,
                 what: what.into(),
                 detail,
+                job: String::new(),
             });
         }
     }
@@ -315,7 +318,13 @@ where
                     }
                 }
                 match catch_unwind(AssertUnwindSafe(|| f(&jobs[i]))) {
-                    Ok(out) => {
+                    Ok(mut out) => {
+                        if !out.viol.is_empty() {
+                            let k = key(&jobs[i]).replace([' ', '\n', '\t'], "_");
+                            for v in out.viol.iter_mut() {
+                                v.job = k.clone();
+                            }
+                        }
                         results.lock().unwrap()[i] = Some(out);
                     }
                     Err(_) => {
@@ -593,6 +602,7 @@ pub fn finish(ctx: &Ctx, sum: Summary, meta: Meta) -> i32 {
             ("property".to_string(), Json::str(ctx.id)),
             ("tier".to_string(), Json::str(ctx.tier.name())),
             ("key".to_string(), Json::str(&v.key)),
+            ("job".to_string(), Json::str(&v.job)),
             ("what".to_string(), Json::str(&v.what)),
             ("case".to_string(), v.detail.clone()),
             (
